@@ -210,6 +210,9 @@ def check_c01_c02(c, result):
         c.tie(tq5, res5, ip5, model5, result)
         oracle(c, tq5, res5, model5, result, c.files, k5)
         c.stats['mixed_mechanism_queries'] = len(tq5)
+        # the same queries typed into ONE console session: they declare predicates of the same names over different
+        # kinds and bind the same kinds under different aliases -- each must be answered as it is alone
+        console_compare(c, result, pid, [(qid, t, 2) for qid, t in tq5], res5, 'same-named predicates over other kinds, other aliases for the same kinds, in earlier lines')
     # (2e) every accessor compared with every value it is observed to have (== and !=, the literal on either side,
     # alone and inside a plain conjunction): systematic, and the values include quotes, backslashes and twins
     tq8, k8 = [], {}
@@ -347,7 +350,7 @@ def check_c01_c02(c, result):
     # (2d) string literals with multi-byte characters in conditions that are TRUE for (almost) every entity, with and
     # without predicates: a condition cut or re-encoded wrongly loses every match
     tq7, k7 = [], {}
-    for i, word in enumerate(['café', '日本', 'naïve ü', '😀', 'é', 'ü' * 40, 'a\u00a0b'] if kinds2 else []):
+    for i, word in enumerate(['café', '日本', 'naïve ü', '😀', 'é', 'ü' * 40, 'a\u00a0b', 'Kapı', 'ıı', 'ſtraße', 'İstanbul', '\u212a', 'ȺȾ', 'ǅ', 'e\u0301', '\u200fאב', 'ﬃ'] if kinds2 else []):
         kq = kinds2[i % len(kinds2)]
         accq = querygen.KINDS[kq][0][0]
         forms = ['x.%s() != %s' % (accq, querygen.lit(word)), '!(x.%s() == %s) || x.%s() == %s' % (accq, querygen.lit(word), accq, querygen.lit(word + 'z')),
@@ -806,7 +809,7 @@ def check_c13(c, result):
         c.stats['c13_nested_value_groups'] += 3
     # conditions whose literals hold multi-byte characters, raw line breaks, tabs, white-space runs or end in a
     # backslash: the predicate-free original, the same with a never-called declaration, behind a call, as a value
-    for wi, word in enumerate(['café', '日本', '😀x', 'a\nb', 'a\r\nb', 'p  q', 'p\tq', 'C:\\', 'ü' * 40, 'naïve "q" é'] if vkinds else []):
+    for wi, word in enumerate(['café', '日本', '😀x', 'a\nb', 'a\r\nb', 'p  q', 'p\tq', 'C:\\', 'ü' * 40, 'naïve "q" é', 'Kapı ıı', 'ſſ İ \u212a', 'ȺȾȺȾ', 'e\u0301\u200f'] if vkinds else []):
         K = vkinds[wi % len(vkinds)]
         acc = querygen.KINDS[K][0][0]
         L = querygen.lit(word)
@@ -1453,7 +1456,16 @@ def unusual_queries():
             'FROM method_declaration AS m, method_declaration AS n WHERE m.getName() == n.getName() SELECT m, n',
             'FROM IfStmt AS s WHERE s.getIfStmt().GetCondition().NodeString == "(x)" SELECT s', 'FROM BlockStmt AS b WHERE b.getBlockStmt().GetStmt(99) == 1 SELECT b',
             'FROM ClassInstanceExpr AS n WHERE n.getClassInstanceExpr().GetArg(7) == 1 SELECT n', 'FROM binary_expression AS b SELECT b.getBinaryExpr()',
-            '', ' ', 'FROM', 'SELECT x', 'FROM a AS b SELECT', 'FROM a AS b WHERE SELECT c', '\x00', '"', 'FROM a AS b SELECT "\\', 'é FROM a AS b SELECT b']
+            '', ' ', 'FROM', 'SELECT x', 'FROM a AS b SELECT', 'FROM a AS b WHERE SELECT c', '\x00', '"', 'FROM a AS b SELECT "\\', 'é FROM a AS b SELECT b'] + UNICODE_QUERIES
+
+
+# characters whose upper- or lower-case form has another length in UTF-8 (ı ſ İ K Ⱥ Ⱦ), title-case letters, combining
+# marks, ligatures, a right-to-left mark, a NUL byte: in literals, in aliases and at the very end of the query
+_UW = ['Kapı', 'ıııı', 'ſſ', 'İİ', '\u212a\u212a', 'ȺȾȺȾ', 'ǅ', 'e\u0301', 'ﬃ', '\u200f', 'a\x00b', 'ß', 'ΐ', '𝒳']
+UNICODE_QUERIES = (['FROM class_declaration AS c WHERE c.getName() != "%s" SELECT c' % w for w in _UW]
+                   + ['FROM class_declaration AS c WHERE c.getName() != "%s%s" SELECT c.getName(), "%s"' % (w, w, w) for w in _UW]
+                   + ['FROM class_declaration AS %s SELECT %s' % (a, a) for a in ('ı', 'cı', 'ſ', 'Ⱥ', 'é')]
+                   + ['from class_declaration as c select c', 'From class_declaration As c Where c.getName() != "ı" Select c'])
 
 
 def predicate_graphs(rng, n):
